@@ -96,7 +96,7 @@ def family(msg, exc):
 def exc_line(mod, e):
     """canonical line for an exception that escaped: a ProtocolError with what it carries, or the
     class name - the nearest class of the modelled universe for anything outside it
-    (asyncio.InvalidStateError -> Exception)"""
+    (e.g. asyncio.CancelledError -> BaseException)"""
     if isinstance(e, mod.ProtocolError):
         return cc.exc_line(mod, e)
     return 'PY ' + pr.nearest_exc_name(e)
